@@ -490,7 +490,10 @@ func tokenTexts() []string {
 	return out
 }
 
-var contexts = []string{"%s", " %s ", "[%s]", "[%s,1]", "[1,%s]", "{\"k\":%s}", "{\"k\":%s,\"j\":0}", "[%s\n]", "[\n%s\n,\n%s]", "{\"\":%s,\"j\":0}", "{\"a\":{\"\":%s},\"j\":[%s]}"}
+var contexts = []string{"%s", " %s ", "[%s]", "[%s,1]", "[1,%s]", "{\"k\":%s}", "{\"k\":%s,\"j\":0}", "[%s\n]", "[\n%s\n,\n%s]", "{\"\":%s,\"j\":0}", "{\"a\":{\"\":%s},\"j\":[%s]}",
+	// the token with one token of every other kind behind it (what reading the
+	// first one piecewise leaves behind must not show in the later ones)
+	"[%s,\"\\u0041\",true,-1.5e2,\"x\\ny\",null]", "{\"k\":%s,\"\\u0041\":\"\\u0042c\",\"f\":false,\"n\":12345678901234567890}"}
 
 func legC(c *core.Ctx, sub int) {
 	machines := []*mach.M{mach.OjParser(), mach.OjTokenizer(), mach.GenParser(), mach.OjValidator(), mach.SenParser(), mach.SenTokenizer()}
@@ -590,6 +593,7 @@ func legC(c *core.Ctx, sub int) {
 		}
 	}
 	legCScale(c, sub, machines)
+	legCRefill(c, sub, machines)
 	// SEN-only syntax: sen.Parser and sen.Tokenizer, each against its own whole-buffer outcome
 	for si, st := range senTexts {
 		if si%nC != sub {
@@ -756,6 +760,57 @@ func legCScale(c *core.Ctx, sub int, machines []*mach.M) {
 				padded := append([]byte(strings.Repeat(" ", 4096-k)), in...)
 				if len(padded) > 4096 {
 					checkEnv("refill-4096", [][]byte{padded[:4096], padded[4096:]}, mach.Config{}, whole)
+				}
+			}
+		}
+	}
+}
+
+// refillUnit is one element of the refill sweep: a member name, a string with an
+// escape, a number with fraction and exponent, a literal, a \u escape, a plain
+// string, a nested array and a line feed.
+const refillUnit = `{"k":"v\n","n":-12.5e1,"t":true,"\u0041":"\u0042c","p":"plain",` + "\n" + `"a":[null,false]},`
+
+// legCRefill: the sweep over the 4096-byte refill. A text of about 4.6 KB made of
+// refillUnit elements is moved one byte at a time (blanks in front) so that
+// every byte of an element falls once on the last byte of a full read buffer
+// and once on the first byte of the next; every machine must give its
+// whole-buffer outcome when the text comes in reads of 4096 bytes, in reads of
+// 4096 bytes with io.EOF delivered with the last one, and in two reads that
+// meet at the same place.
+func legCRefill(c *core.Ctx, sub int, machines []*mach.M) {
+	body := "[" + strings.Repeat(refillUnit, 4700/len(refillUnit)) + "0]"
+	for p := 0; p < len(refillUnit); p++ {
+		if p%nC != sub {
+			continue
+		}
+		if c.Expired("C03 refill sweep") {
+			return
+		}
+		in := []byte(strings.Repeat(" ", p) + body)
+		for _, m := range machines {
+			whole := outcome(m, mach.Config{}, m.Whole(in, mach.Config{}))
+			c.Eval()
+			if whole == "ERR" {
+				c.HarnessError("refill sweep: %s rejects the text at shift %d", m.Name, p)
+				continue
+			}
+			c.Nontrivial()
+			for vi, v := range []struct {
+				class  string
+				chunks [][]byte
+				cf     mach.Config
+			}{
+				{"reads-of-4096", fixedChunks(in, 4096), mach.Config{}},
+				{"reads-of-4096+eof-with-last-chunk", fixedChunks(in, 4096), mach.Config{EOFWithLast: true}},
+				{"two-reads-meeting-at-4096", [][]byte{in[:4096], in[4096:]}, mach.Config{}},
+				{"two-reads-meeting-at-4095", [][]byte{in[:4095], in[4095:]}, mach.Config{}},
+			} {
+				o := m.Feed(v.chunks, v.cf, false, false)
+				c.Eval()
+				if got := outcome(m, mach.Config{}, o); got != whole {
+					cs := caseT{Leg: "C", Machine: m.Name, A: v.chunks, Input: in, Quoted: fmt.Sprintf("refill sweep, shift %d", p), EOFWithLast: v.cf.EOFWithLast}
+					c.Fail(core.Sig("chunking", "fe="+m.Name, "token=refill-sweep", "split="+v.class, treeDiffKind(whole, got)), cs, len(in)+vi, whole, got)
 				}
 			}
 		}
